@@ -49,10 +49,10 @@ PROPS = {
     "C09": {"level": "exploration", "arms": [A("par-cache", 40000, 2000000), A("seq-cache", 40000, 1500000), A("par-free", 10000, 500000), A("seq-depthfree", 10000, 400000)],
             "probes": ["probe:cache_hit", "probe:pruned_by_cache_at_pop", "probe:read_threshold_written_by_peer", "cache_clear_layers", "strategy:cache_biased"],
             "rule": RULE_SOLVER + "; instances with heavy re-convergence (1-3 base states per layer); no lossy-cache fault in the cache arms (the real cache must be the one answering)"},
-    "C10": {"level": "exploration", "arms": [A("dom-history", 40000, 2000000), A("seq-dom", 30000, 1200000), A("par-dom", 30000, 1200000)],
+    "C10": {"level": "exploration", "arms": [A("dom-enum", 1195740, 10761678, enum_len={"quick": 4, "thorough": 5}, samples=1), A("dom-history", 40000, 2000000), A("seq-dom", 30000, 1200000), A("par-dom", 30000, 1200000)],
             "probes": ["probe:dominated_verdict", "probe:equal_state_re_presented", "probe:recorded_entry_dropped_by_later_dominating_state", "threshold_soundness_probes", "comparator_pairs_checked", "probe:dominance_pruned_node"],
             "rule": "checker semantics: generated histories of is_dominated_or_insert / clear_layer over small alphabets (<= 2 keys + keyless, <= 3 coordinates in 0..2, values 0..3, 2 depths) compared step by step with a reference Pareto front; threshold soundness re-checked against fresh real checkers; distinct = distinct (use_value, history). Solver level: " + RULE_SOLVER},
-    "C11": {"level": "exploration", "arms": [A("fringe-history", 60000, 3000000), A("seq-depthfree-nodup", 20000, 800000), A("par-free", 10000, 400000), A("seq-sweep-nodup", 2000, 150000)],
+    "C11": {"level": "exploration", "arms": [A("fringe-enum", 222300, 4001436, enum_len={"quick": 4, "thorough": 5}, samples=1), A("fringe-history", 60000, 3000000), A("seq-depthfree-nodup", 20000, 800000), A("par-free", 10000, 400000), A("seq-sweep-nodup", 2000, 150000)],
             "probes": ["probe:coalesced", "probe:coalesced_with_different_ub", "fringe_clears", "fringe_pops"],
             "rule": "generated push/pop/clear histories (length 4..43, <= 4 states x <= 3 depths x values 0..4 x ubs 0..5) on SimpleFringe and NoDupFringe with MaxUB against a reference multiset keyed by (state, depth), every operation compared, final drain; distinct = distinct (fringe kind, history); plus in-situ reference multiset inside solver runs with depth-free states"},
     "C12": {"level": "exploration", "arms": [A("dd-history", 20000, 800000), A("dd-history-narrow", 20000, 800000), A("dd-history-longarc", 6000, 200000), A("seq-free", 20000, 800000), A("par-free", 15000, 600000), A("par-cutoff", 10000, 400000), A("seq-longarc", 3000, 150000)],
@@ -73,7 +73,7 @@ PROPS = {
             "real": ["the example programs themselves: main(), clap CLI, instance readers, DP models, relaxations, rankings, dominance rules, width heuristics (harness/exrun builds them from /repo's working tree)", "ddo solvers, diagrams, fringes, cache, dominance stores; real OS threads under engine S (lock/condvar/thread hooks)"],
             "stub": ["TimeBudget is never armed (no time limit is passed)", "no yield points inside Cache / Dominance / Cutoff calls for the examples (they use ddo's own objects directly): scheduling points are the mutex, condvar and thread hooks only"],
             "extra_coverage": {"examples_covered": EXAMPLES_READY, "examples_not_covered": [n for n in ALL_EXAMPLES if n not in EXAMPLES_READY]}},
-    "C18": {"level": "exploration", "arms": [A("store-history", 60000, 3000000), A("dom-history", 30000, 1200000), A("ext:miri-cache", 16, 640, reps=20), A("ext:miri-dom", 16, 640, reps=20)],
+    "C18": {"level": "exploration", "arms": [A("store-enum", 292560, 6728903, enum_len={"quick": 4, "thorough": 5}, samples=1), A("store-history", 60000, 3000000), A("dom-history", 30000, 1200000), A("ext:miri-cache", 16, 640, reps=20), A("ext:miri-dom", 16, 640, reps=20)],
             "probes": ["probe:get_hit", "cache_clear_layers", "cache_clears", "probe:dominated_verdict", "probe:overlapping_updates_same_key", "probe:get_overlapping_update", "probe:overlapping_check_and_insert_same_key"],
             "real": ["ddo::SimpleCache, ddo::SimpleDominanceChecker", "dashmap 5.5 (shard RwLocks) and parking_lot_core, interpreted by Miri", "std::thread (Miri's seeded scheduler decides every pre-emption)"],
             "stub": ["nothing is stubbed in the concurrent arm; the workload (2..3 threads x 2..4 operations on 1..2 keys) is generated from the workload seed"],
@@ -123,6 +123,9 @@ def evidence(prop, cfg, tier, seed, per_arm, wall, new_violations, known_printed
         "known_findings_reported": known_printed,
         "exhaustive": False,
     }
+    enum_arms = [a for a in per_arm if a.endswith("-enum")]
+    if enum_arms:
+        cov["bounded_exhaustive_arms"] = {a: f"every operation history up to the configured length over the tiny alphabet was executed exactly once ({per_arm[a]['runs']} histories); enumeration, not seeded search" for a in enum_arms}
     cov.update(cfg.get("extra_coverage", {}))
     return {
         "property_id": prop, "tier": tier, "seed": seed, "level": cfg["level"], "coverage": cov,
